@@ -44,6 +44,11 @@ CHECKS = {
         text="Lean theorems over a model of expr.Hash that reproduces the exact hash strings (separators regenerated from /repo): hash_congr (graphs that agree on sorted attribute lists, types, field tags and effective names hash identically from every node and seen-table), hence hash_perm_object / hash_perm_union (declaration order of attributes/alternatives with distinct names is irrelevant, all flags, cyclic graphs included) and hash_order_indep (any reordering of a metadata map is irrelevant); hash_not_complete: kernel-checked witness that equal hash does not imply equality (known finding). Copy independence (Dup/DupAtt) is decided on the implementation: structural equality of the copy, reflective scan for shared mutable cells, mutation scripts; six defects were repaired (fix: commits), shared result-type views remain a known finding.",
         note="Partial: no Lean heap model of Dup yet (independence is an implementation-side oracle over generated graphs, not a theorem); termination of Hash on object-free cycles (not DSL-reachable) not covered.",
         ref="DESIGN.md §3 C13"),
+    "C01": dict(
+        category="translation_validation",
+        text="Translation validation per design: every design of the stream goes through goa's real DSL, eval and the gen + example generators in a fresh process (panic, error, timeout captured) and every emitted package is type-checked and built with `go build ./...` against /repo; the stream visits every cell of the first-order feature table systematically and then combines features at random. Proved core in Lean: codegen.NameScope.Unique/HashedUnique (hand model, differential correspondence): the probing loop always terminates with a fresh name (pigeonhole over the finitely many reserved names), every history of Unique calls returns pairwise distinct names, HashedUnique is a stable injective function of the hash.",
+        note="The universal claim 'all accepted designs compile' is not a Lean theorem: it is decided per program by the Go type checker. Streaming, multipart, file servers and gRPC are not generated yet; goa.design/clue is replaced by a stub module (example mains are checked against its signatures only).",
+        ref="DESIGN.md §3 C01", technique="translation validation (Go type checker per generated program) + Lean 4 proof of the identifier-allocation core with differential correspondence"),
 }
 
 m = {
